@@ -172,7 +172,7 @@ fn cmp_tags(target: &str, seed: u64, params: &str, got: &[TagRec], want: &[TagRe
     Ok(())
 }
 
-static WAIT_CALLS: std::sync::atomic::AtomicUsize = std::sync::atomic::AtomicUsize::new(0);
+static WAIT_SEEN: std::sync::Mutex<std::collections::BTreeMap<String, u32>> = std::sync::Mutex::new(std::collections::BTreeMap::new());
 static WAIT_PROBES: std::sync::atomic::AtomicUsize = std::sync::atomic::AtomicUsize::new(0);
 
 /// one step of work() with the C09/C15 observations: returns (verdict name, progress made)
@@ -182,10 +182,20 @@ fn step<B: Block>(b: &mut B, target: &str, seed: u64, params: &str, before: (usi
         Ok(BlockRet::EOF) => "EOF".to_string(),
         Ok(BlockRet::Pending) => "Pending".to_string(),
         Ok(BlockRet::WaitForStream(w, n)) => {
-            // C09: a wait that the named stream already satisfies is untruthful (the scheduler would spin).  Timing probe
-            // (a genuine wait takes the stream's 100 ms timeout), sampled: at most WAIT_PROBES per process.
-            let k = WAIT_CALLS.fetch_add(1, std::sync::atomic::Ordering::Relaxed);
-            if k % 5 == 0 && WAIT_PROBES.fetch_add(1, std::sync::atomic::Ordering::Relaxed) < 60 && !wait_is_truthful(w, n) {
+            // C09: a wait that the named stream already satisfies is untruthful (the scheduler would spin).  Timing probe: a
+            // genuine wait takes the stream's 100 ms timeout.  Probed only where it can matter (the amount asked for is
+            // within what the input holds or the output has free -- otherwise no stream can satisfy it already), at most
+            // twice per (target, amount, situation) and 80 times per process.
+            let holds = CAP.saturating_sub(before.0);
+            let room = CAP.saturating_sub(before.1);
+            let key = format!("{target}/{n}/{}/{}", holds >= n, room >= n);
+            let due = (holds >= n || room >= n) && {
+                let mut m = WAIT_SEEN.lock().unwrap();
+                let c = m.entry(key).or_insert(0);
+                *c += 1;
+                *c <= 2
+            };
+            if due && WAIT_PROBES.fetch_add(1, std::sync::atomic::Ordering::Relaxed) < 80 && !wait_is_truthful(w, n) {
                 format!("UntruthfulWait({n})")
             } else {
                 format!("Wait({n})")
